@@ -17,12 +17,24 @@ func init() { Registry["C10"] = C10 }
 
 // corpus programs with identifier roles written as @kind:default@
 type c10Prog struct {
-	name string
-	text string
+	name  string
+	text  string
+	files map[string]string // further files of the program (imported by the main file), names not renamed
+}
+
+func c10Transpile(src string, files map[string]string, t drive.Target) drive.TResult {
+	if len(files) == 0 {
+		return drive.TranspileSrc(src, t)
+	}
+	all := map[string]string{"main.tsh": src}
+	for k, v := range files {
+		all[k] = v
+	}
+	return drive.Transpile(all, "main.tsh", t)
 }
 
 var c10Corpus = []c10Prog{
-	{"scalars-loops", `@global:alpha@ := 3
+	{name: "scalars-loops", text: `@global:alpha@ := 3
 @global:beta@ := 4
 for @loop:idx@ := 0; @loop:idx@ < 3; @loop:idx@++ {
 	@global:alpha@ += @loop:idx@ * @global:beta@
@@ -35,7 +47,7 @@ for @loop:idx@ := 0; @loop:idx@ < 3; @loop:idx@++ {
 @global:gamma@ := "s" + itoa(@global:alpha@)
 print(@global:alpha@, @global:beta@, @global:gamma@, @global:alpha@ % 5 == 1)
 `},
-	{"functions", `@global:total@ := 10
+	{name: "functions", text: `@global:total@ := 10
 func @func:addup@(@param:left@ int, @param:right@ int) int {
 	@local:sum@ := @param:left@ + @param:right@
 	@global:total@ += @local:sum@
@@ -51,7 +63,7 @@ print(@global:one@, @global:two@, @global:total@)
 @global:one@, @global:two@ = @global:two@, @global:one@
 print(@global:one@, @global:two@, @func:addup@(@func:addup@(1, 2), @global:total@))
 `},
-	{"slices", `@global:items@ := []int{5, 6, 7}
+	{name: "slices", text: `@global:items@ := []int{5, 6, 7}
 @global:items@[5] = 9
 @global:other@ := []int{}
 @global:count@ := copy(@global:other@, @global:items@)
@@ -68,7 +80,7 @@ print(@global:count@, len(@global:items@), len(@global:other@), @global:items@[1
 @global:words@[2] = "c"
 print(len(@global:words@), @global:words@[0] + @global:words@[2])
 `},
-	{"strings", `@global:text@ := "hello world"
+	{name: "strings", text: `@global:text@ := "hello world"
 @global:part@ := @global:text@[0:5]
 @global:char@ := @global:text@[6]
 func @func:tail@(@param:src@ string, @param:from@ int) string {
@@ -83,7 +95,7 @@ for @range:at@, @range:ch@ := range @global:part@ {
 }
 print(@global:text@[:2] + @global:text@[9:], @global:part@ == "hello", @global:char@ != "w")
 `},
-	{"switch-output", `func @func:show@(@param:msg@ string) {
+	{name: "switch-output", text: `func @func:show@(@param:msg@ string) {
 	print("show", @param:msg@)
 }
 @global:level@ := 2
@@ -109,7 +121,7 @@ print("end", @global:level@, @global:flag@)
 func init() {
 	// the same spelling used in different scopes (locals of two functions on one call chain, and a
 	// global defined after both): a renaming changes all of them consistently
-	c10Corpus = append(c10Corpus, c10Prog{"shared-spelling", `func @func:inner@(@param:seed@ int) int {
+	c10Corpus = append(c10Corpus, c10Prog{name: "shared-spelling", text: `func @func:inner@(@param:seed@ int) int {
 	@local:count@ := @param:seed@ + 3
 	@local:count@ += 1
 	return @local:count@ * 2
@@ -126,6 +138,34 @@ func @func:outer@(@param:seed@ int) int {
 @local:count@++
 print(@global:result@, @local:count@, @func:inner@(0))
 `})
+}
+
+func init() {
+	// a program with an imported file: the names the import machinery derives for the file's public and
+	// private functions and variables (<prefix>_<name>) are harvested like every other emitted name
+	c10Corpus = append(c10Corpus, c10Prog{name: "imported-file", text: `import lib "lib.tsh"
+
+func @func:wrap@(@param:val@ int) int {
+	@local:part@ := lib.Compute(@param:val@)
+	return @local:part@ + 1
+}
+@global:total@ := @func:wrap@(3)
+@global:hidden@ := 100
+print("total", @global:total@, lib.Compute(1), lib.Compute(99), @global:hidden@)
+`, files: map[string]string{"lib.tsh": `var Limit int = 40
+var hidden int = 7
+
+func helper(v int) int {
+	return v + hidden
+}
+
+func Compute(v int) int {
+	if v > Limit {
+		return Limit
+	}
+	return helper(v) * 2
+}
+`}})
 }
 
 var c10Hole = regexp.MustCompile(`@([a-z]+):([A-Za-z0-9_]+)@`)
@@ -193,8 +233,8 @@ type c10Obs struct {
 	stderr string
 }
 
-func c10RunBash(src string) c10Obs {
-	tr := drive.TranspileSrc(src, drive.Bash)
+func c10RunBash(src string, files map[string]string) c10Obs {
+	tr := c10Transpile(src, files, drive.Bash)
 	if tr.Panic != "" {
 		return c10Obs{class: "panic", stderr: firstLine(tr.Panic)}
 	}
@@ -209,8 +249,8 @@ func c10RunBash(src string) c10Obs {
 	return c10Obs{class: "ok", stdout: got.Stdout, exit: got.Exit, stderr: got.Stderr}
 }
 
-func c10RunBatch(src string) c10Obs {
-	tr := drive.TranspileSrc(src, drive.Batch)
+func c10RunBatch(src string, files map[string]string) c10Obs {
+	tr := c10Transpile(src, files, drive.Batch)
 	if tr.Panic != "" {
 		return c10Obs{class: "panic", stderr: firstLine(tr.Panic)}
 	}
@@ -240,14 +280,14 @@ func C10() int {
 		for _, rl := range c10Roles(p.text) {
 			user[rl[1]] = true
 		}
-		b, w := c10RunBash(src), c10RunBatch(src)
+		b, w := c10RunBash(src, p.files), c10RunBatch(src, p.files)
 		if b.class != "ok" || b.stderr != "" || b.exit != 0 || w.class != "ok" || w.stderr != "" || b.stdout != w.stdout {
 			fmt.Printf("HARNESS ERROR: corpus program %s does not run cleanly with its default names (bash: %s %q / batch: %s %q)\n", p.name, b.class, b.stderr, w.class, w.stderr)
 			return 2
 		}
 		base[p.name] = [2]c10Obs{b, w}
-		tb := drive.TranspileSrc(src, drive.Bash)
-		tw := drive.TranspileSrc(src, drive.Batch)
+		tb := c10Transpile(src, p.files, drive.Bash)
+		tw := c10Transpile(src, p.files, drive.Batch)
 		c10Harvest(tb.Script, bashNames, user, reserved)
 		c10Harvest(tw.Script, batchNames, user, reserved)
 	}
@@ -340,7 +380,7 @@ func C10() int {
 		v := vs[i]
 		src := c10Render(v.prog.text, v.ren)
 		distinct.Add(src)
-		obs := [2]c10Obs{c10RunBash(src), c10RunBatch(src)}
+		obs := [2]c10Obs{c10RunBash(src, v.prog.files), c10RunBatch(src, v.prog.files)}
 		mu.Lock()
 		done++
 		mu.Unlock()
@@ -384,9 +424,9 @@ func C10() int {
 			// confirm determinism
 			var again c10Obs
 			if t == 0 {
-				again = c10RunBash(src)
+				again = c10RunBash(src, v.prog.files)
 			} else {
-				again = c10RunBatch(src)
+				again = c10RunBatch(src, v.prog.files)
 			}
 			if again.class != o.class || (o.class == "ok" && again.stdout != o.stdout) {
 				// e.g. a variable renamed to RANDOM or SECONDS: the behaviour changed AND became
@@ -395,7 +435,7 @@ func C10() int {
 				sym += "+nondeterministic"
 			}
 			r.Fail(v.keyBase+" target="+tg+" symptom=behaviour-changed", fmt.Sprintf("%s [%s]: %s (%s)", v.desc, tg, sym, diffHint(b.stdout, o.stdout)), func() findings.Replay {
-				return findings.Replay{Files: map[string]string{"src/main.tsh": src, "base/main.tsh": c10Render(v.prog.text, nil), "expected.txt": b.stdout + fmt.Sprintf("exit=%d\n", b.exit), "actual.txt": o.stdout + fmt.Sprintf("exit=%d\n", o.exit), "stderr.txt": o.stderr, "detail.txt": v.desc + "\n"},
+				return findings.Replay{Files: c10WithFiles(v.prog.files, map[string]string{"src/main.tsh": src, "base/main.tsh": c10Render(v.prog.text, nil), "expected.txt": b.stdout + fmt.Sprintf("exit=%d\n", b.exit), "actual.txt": o.stdout + fmt.Sprintf("exit=%d\n", o.exit), "stderr.txt": o.stderr, "detail.txt": v.desc + "\n"}),
 					Script: repoTshReplay("bash")}
 			})
 		}
@@ -414,4 +454,12 @@ func C10() int {
 	r.Assumef("the default-named corpus programs are validated by this check only for clean execution and bash/batch agreement; their meaning is covered by C01-C05")
 	r.Assumef("Batch observations come from cmdmodel (case-insensitive variable and label names like cmd.exe); unmodelled runs are counted, not judged")
 	return r.Finish()
+}
+
+func c10WithFiles(files map[string]string, m map[string]string) map[string]string {
+	for k, v := range files {
+		m["src/"+k] = v
+		m["base/"+k] = v
+	}
+	return m
 }
